@@ -722,8 +722,13 @@ def det_prog(rng):
         funcs.append(body)
     main += ["li a7, 10", "ecall"]
     if rng.random() < 0.3:      # a function that is the first instruction of the program AND entered by a plain jump
-        main.insert(len(main) - 2, "j f0")
-        return [("a.s", "\n".join(funcs[0] + main + [l for f in funcs[1:] for l in f]) + "\n")], "a.s"
+        if rng.random() < 0.5:
+            main.insert(len(main) - 2, "j f0")
+            extra = []
+        else:                   # ... the jump being the FIRST instruction of another called function
+            main.insert(len(main) - 2, "jal retry")
+            extra = ["retry:", "j f0"]
+        return [("a.s", "\n".join(funcs[0] + main + [l for f in funcs[1:] for l in f] + extra) + "\n")], "a.s"
     if rng.random() < 0.5 or nf == 0:
         return [("a.s", "\n".join(main + [l for f in funcs for l in f]) + "\n")], "a.s"
     if rng.random() < 0.15:     # twin files: the same text under two names - identical diagnostics at identical offsets in two files
